@@ -210,13 +210,13 @@ reg(PropertySpec(
 
 reg(PropertySpec(
     "C13", "Saved samples, histories, transforms, flows and configuration reload unchanged",
-    functions=["utils:recursively_save_to_h5_file", "utils:resolve_xp", "samples:BaseSamples.from_dict", "utils:resolve_dtype", "utils:convert_dtype", "flows.torch.flows:BaseTorchFlow.save", "flows.jax.flows:FlowJax.save"],
+    functions=["utils:recursively_save_to_h5_file", "utils:resolve_xp", "samples:BaseSamples.from_dict", "utils:resolve_dtype", "utils:convert_dtype", "flows.torch.flows:BaseTorchFlow.save", "flows.jax.flows:FlowJax.save", "history:SMCHistory.save", "history:History.save"],
     native=_lazy("checks.native_misc", "native_C13"),
     extra_static=_lazy1("checks.static_facts", "c13_bindings"),
-    technique="contract-based deductive verification: the real recursively_save_to_h5_file / encode_for_hdf5 and load_from_h5_file / decode_from_hdf5 are executed symbolically against an h5py group model (alphabetical iteration, string storage) for dictionary shapes covering None, {}, nested dicts to depth 3, string lists, scalars, arrays; the real to_dict -> from_dict for three classes x layouts incl. the alphabetical re-ordering an HDF5 load performs (columns tracked individually); resolve_xp on every saved namespace name; constructor binding of the saved configuration from the ast (z3 + ast); bounded native save/load grid on real HDF5 files",
+    technique="contract-based deductive verification: the real recursively_save_to_h5_file / encode_for_hdf5 and load_from_h5_file / decode_from_hdf5 are executed symbolically against an h5py group model (alphabetical iteration, string storage) for dictionary shapes covering None, {}, nested dicts to depth 3, string lists, scalars, arrays; the real to_dict -> from_dict for three classes x layouts incl. the alphabetical re-ordering an HDF5 load performs (columns tracked individually); resolve_xp on every saved namespace name; constructor binding of the saved configuration from the ast (z3 + ast); the real SMCHistory.save -> SMCHistory.load and History.save -> History.load on the group model (populations identified through the per-iteration groups, alphabetical group iteration); bounded native save/load grid on real HDF5 files",
     assumptions=["assumed h5py storage model (strings come back as bytes, lists of strings as object arrays, 0-d values as scalars, alphabetical member order)", "preconditions: no key contains '.', no string value equals a sentinel",
                  "the dictionary shapes are enumerated to nesting depth 3 (the induction over depth is not mechanised)"],
-    miss=["network weights and transform statistics are checked by the bounded stand-in only", "History.save/load and BaseTransform.save/load are covered by the bounded stand-in only"],
+    miss=["network weights and transform statistics are checked by the bounded stand-in only", "BaseTransform.save/load are covered by the bounded stand-in only", "SMCHistory.save/load is proved for 0, 1, 2, 10, 11 and 12 stored populations (entries symbolic); larger counts by the bounded stand-in (up to 101)"],
 ))
 
 FLOWQ = ["flows.torch.flows:ZukoFlow.sample_and_log_prob", "flows.torch.flows:ZukoFlow.log_prob", "flows.torch.flows:ZukoFlow.sample",
@@ -250,7 +250,7 @@ _EXTRA = {
     "C15": ["flows.jax.flows:FlowJax.save", "flows.torch.flows:BaseTorchFlow.save", "samples:BaseSamples.from_dict", "samples:Samples.rejection_sample",
             "transforms:CompositeTransform.forward", "transforms:CompositeTransform.inverse"],
     "C17": ["aspire:Aspire.sample_posterior", "samplers.mcmc:Emcee.sample", "samplers.mcmc:MiniPCN.sample", "samplers.base:Sampler.log_likelihood"],
-    "C18": ["samplers.smc.emcee:EmceeSMC.mutate", "samplers.smc.minipcn:MiniPCNSMC.mutate"],
+    "C18": ["samplers.smc.emcee:EmceeSMC.mutate", "samplers.smc.minipcn:MiniPCNSMC.mutate", "history:SMCHistory.save"],
     "C20": ["flows.jax.flows:FlowJax.sample_and_log_prob", "samplers.importance:ImportanceSampler.sample"],
 }
 for _pid, _qs in _EXTRA.items():
